@@ -100,8 +100,9 @@ func TestC08(t *testing.T) {
 	for _, f := range files {
 		var w struct {
 			sessmodel.Case
-			Pipeline *pipeline.Case `json:"pipeline"`
-			Window   *rxwindow.Case `json:"window"`
+			Pipeline *pipeline.Case     `json:"pipeline"`
+			Window   *rxwindow.Case     `json:"window"`
+			Lost     *rxwindow.LostCase `json:"lost"`
 		}
 		if err := vcore.LoadReplayCase(f, &w); err != nil {
 			t.Fatalf("replay %s: %v", f, err)
@@ -116,6 +117,12 @@ func TestC08(t *testing.T) {
 			runWindow(t, *w.Window)
 			continue
 		}
+		if w.Lost != nil {
+			vcore.E.Eval()
+			vcore.E.Class("replayed")
+			vcore.Report(t, rxwindow.RunLost(*w.Lost), map[string]any{"lost": w.Lost})
+			continue
+		}
 		c := w.Case
 		r := sessmodel.Run(c, or)
 		account(c, r)
@@ -128,6 +135,8 @@ func TestC08(t *testing.T) {
 	vcore.Check(t, vcore.N(150, 2500), func(rt *rapid.T) {
 		runPipeline(rt, pipeline.Gen(rt))
 	})
+	// an answer that could not be sent: the request was executed, its retransmission gets the answer (package rxwindow)
+	rxwindow.LostPart(t)
 	vcore.Check(t, vcore.N(12, 80), func(rt *rapid.T) {
 		runWindow(rt, rxwindow.Gen(rt))
 	})
